@@ -650,27 +650,26 @@ theorem nextToken_dollar (cfg : LexCfg) (h : CfgOK cfg) (t : List Char) :
   have hp : punctTok '$' = none := by decide
   simp [hp, h.a1]
 
-/-- `[$]COL[$]ROW` without a sheet, when one of the `$` is there -/
-theorem nextToken_ref_local (cfg : LexCfg) (h : CfgOK cfg) (r : PRef) (rest : List Char)
-    (hr : refOK r = true) (habs : (r.absCol || r.absRow) = true)
-    (hrest : stops (fun c => isDigit c || c == ':') rest = true) :
-    nextToken cfg (printA1 [] 0 0 r false false ++ rest) = some (.ref none r, rest) := by
-  have hcell := consumeRange_cell cfg.cc none r rest hr hrest
+/-- a text starting with `[$]COL[$]ROW` (one of the `$` present), no sheet: next_token is what
+    consume_range reads there -/
+theorem nextToken_ref_local (cfg : LexCfg) (h : CfgOK cfg) (r : PRef) (X : List Char)
+    (hr : refOK r = true) (habs : (r.absCol || r.absRow) = true) :
+    nextToken cfg (printA1 [] 0 0 r false false ++ X)
+      = some (ofRefTok (consumeRange cfg.cc true none (printA1 [] 0 0 r false false ++ X))) := by
   have hg := refOK_inGrid r hr
   have htxt := printA1_cell 0 0 r hg
   obtain ⟨g1, g2, g3, g4⟩ := hg
   cases hac : r.absCol with
   | true =>
-    rw [htxt, hac] at hcell ⊢
-    simp only [cellText, withDollar, if_true, List.cons_append, List.append_assoc] at hcell ⊢
-    rw [nextToken_dollar cfg h, hcell]
-    rfl
+    rw [htxt, hac]
+    simp only [cellText, withDollar, if_true, List.cons_append, List.append_assoc]
+    rw [nextToken_dollar cfg h]
   | false =>
     have har : r.absRow = true := by simpa [hac] using habs
-    rw [htxt, hac, har] at hcell ⊢
+    rw [htxt, hac, har]
     simp only [cellText, withDollar, if_true, Bool.false_eq_true, if_false, List.cons_append,
-      List.append_assoc] at hcell ⊢
-    generalize hcol : numToCol (resolvedCol 0 r).toNat = col at hcell ⊢
+      List.append_assoc]
+    generalize hcol : numToCol (resolvedCol 0 r).toNat = col
     have hc1 : 1 ≤ (resolvedCol 0 r).toNat := by omega
     have hup : col.all isUpper = true := by rw [← hcol]; exact numToCol_all_upper _
     have hne : col ≠ [] := by rw [← hcol]; exact numToCol_ne_nil _ (by omega)
@@ -678,7 +677,7 @@ theorem nextToken_ref_local (cfg : LexCfg) (h : CfgOK cfg) (r : PRef) (rest : Li
       rw [List.all_eq_true] at hup ⊢
       intro c hc
       exact alpha_identChar cfg h c (h.upper_alpha c (hup c hc))
-    have hstop : stops (isIdentChar cfg.cc) ('$' :: (natToDec (resolvedRow 0 r).toNat ++ rest)) = true := by
+    have hstop : stops (isIdentChar cfg.cc) ('$' :: (natToDec (resolvedRow 0 r).toNat ++ X)) = true := by
       simp [stops, dollar_not_identChar cfg h]
     have k2 := takeWhile_app _ col _ hall hstop
     have k3 := dropWhile_app _ col _ hall hstop
@@ -691,9 +690,7 @@ theorem nextToken_ref_local (cfg : LexCfg) (h : CfgOK cfg) (r : PRef) (rest : Li
       rw [List.cons_append, nextToken_identStart cfg h c _ hcs, ← List.cons_append]
       unfold identBranch
       simp only [k2, k3, h.a1]
-      simp only [headIs]
-      simp only [List.cons_append] at hcell
-      simp [hcell, ofRefTok]
+      simp [headIs]
 
 theorem nextToken_quote (cfg : LexCfg) (h : CfgOK cfg) (t : List Char) :
     nextToken cfg ('\'' :: t) = some (ofRefTok (quotedPath cfg.cc cfg.a1 t)) := by
@@ -702,14 +699,12 @@ theorem nextToken_quote (cfg : LexCfg) (h : CfgOK cfg) (t : List Char) :
   have hp : punctTok '\'' = none := by decide
   simp [hp]
 
-/-- a sheet-qualified cell, quoted or not as `quote_name` decides -/
-theorem nextToken_ref_sheet (cfg : LexCfg) (h : CfgOK cfg) (n : List Char) (hn : n ≠ []) (r : PRef)
-    (rest : List Char) (hr : refOK r = true)
-    (hrest : stops (fun c => isDigit c || c == ':') rest = true) :
-    nextToken cfg ((quoteName cfg.cc n ++ ['!']) ++ (printA1 [] 0 0 r false false ++ rest))
-      = some (.ref (some n) r, rest) := by
-  have hcell := consumeRange_cell cfg.cc (some n) r rest hr hrest
-  generalize printA1 [] 0 0 r false false ++ rest = X at hcell ⊢
+/-- a text starting with a sheet prefix, quoted or not as `quote_name` decides: next_token is what
+    consume_range reads after the `!` -/
+theorem nextToken_ref_sheet (cfg : LexCfg) (h : CfgOK cfg) (n : List Char) (hn : n ≠ [])
+    (X : List Char) :
+    nextToken cfg ((quoteName cfg.cc n ++ ['!']) ++ X)
+      = some (ofRefTok (consumeRange cfg.cc true (some n) X)) := by
   unfold quoteName quoteWith
   cases hq : nameNeedsQuoting cfg.cc n with
   | true =>
@@ -717,8 +712,7 @@ theorem nextToken_ref_sheet (cfg : LexCfg) (h : CfgOK cfg) (n : List Char) (hn :
     rw [nextToken_quote cfg h]
     unfold quotedPath
     rw [consumeSingleQuoteString_escape n ('!' :: X) (by simp [stops])]
-    simp only [dropWhile_head (h.white_special '!' (by decide)), if_true, h.a1, hcell]
-    rfl
+    simp only [dropWhile_head (h.white_special '!' (by decide)), if_true, h.a1]
   | false =>
     simp only [Bool.false_eq_true, if_false, List.append_assoc, List.cons_append, List.nil_append]
     have hlook : looksLikeIdent cfg.cc n = true := by
@@ -743,8 +737,7 @@ theorem nextToken_ref_sheet (cfg : LexCfg) (h : CfgOK cfg) (n : List Char) (hn :
       rw [List.cons_append, nextToken_identStart cfg h c _ hcs, ← List.cons_append]
       unfold identBranch
       simp only [k2, k3, h.a1]
-      simp only [headIs]
-      simp [hcell, ofRefTok]
+      simp [headIs]
 
 /-! ### the plain form `A1` (identifier branch, parse_reference_a1) -/
 
@@ -807,31 +800,26 @@ theorem upperStr_fixed (cfg : LexCfg) (h : CfgOK cfg) (s : List Char)
     rw [ih (fun c hc => hs c (List.mem_cons_of_mem _ hc))]
     rfl
 
-/-- what may follow a plain `A1` -/
+/-- what may follow the first cell of a plain `A1…` text without changing the branch taken -/
 def plainStop (cfg : LexCfg) (rest : List Char) : Bool :=
-  stops (fun c => isIdentChar cfg.cc c || c == '!' || c == '$' || c == '(' || c == ':') rest
+  stops (fun c => isIdentChar cfg.cc c || c == '!' || c == '$' || c == '(') rest
 
-theorem nextToken_ref_plain (cfg : LexCfg) (h : CfgOK cfg) (r : PRef) (rest : List Char)
+/-- a text starting with a plain cell `A1`: next_token is what consume_range_a1 reads there -/
+theorem nextToken_ref_plain (cfg : LexCfg) (h : CfgOK cfg) (r : PRef) (X : List Char)
     (hr : refOK r = true) (hac : r.absCol = false) (har : r.absRow = false)
-    (hstop : plainStop cfg rest = true) :
-    nextToken cfg (printA1 [] 0 0 r false false ++ rest) = some (.ref none r, rest) := by
-  have hfacts : stops (isIdentChar cfg.cc) rest = true ∧ headIs rest '!' = false ∧
-      headIs rest '$' = false ∧ headIs rest '(' = false ∧
-      stops (fun c => isDigit c || c == ':') rest = true := by
-    cases rest with
+    (hstop : plainStop cfg X = true) (rg : PRange) (rest' : List Char)
+    (hcell : consumeRangeA1 (printA1 [] 0 0 r false false ++ X) = some (rg, rest')) :
+    nextToken cfg (printA1 [] 0 0 r false false ++ X) = some (ofRefTok (tokOfRange none rg, rest')) := by
+  have hfacts : stops (isIdentChar cfg.cc) X = true ∧ headIs X '!' = false ∧
+      headIs X '$' = false ∧ headIs X '(' = false := by
+    cases X with
     | nil => simp [stops, headIs]
     | cons d t =>
       simp only [plainStop, stops, Bool.not_eq_true', Bool.or_eq_false_iff, beq_eq_false_iff_ne] at hstop
-      obtain ⟨⟨⟨⟨h1, h2⟩, h3⟩, h4⟩, h5⟩ := hstop
-      have hdd : isDigit d = false := by
-        cases hx : isDigit d with
-        | false => rfl
-        | true => simp [isIdentChar, h.digit_alnum d hx] at h1
-      refine ⟨by simp [stops, h1], by simp [headIs, h2], by simp [headIs, h3], by simp [headIs, h4],
-        by simp [stops, hdd, h5]⟩
-  obtain ⟨hs1, hbang, hdollar, hparen, hrest⟩ := hfacts
+      obtain ⟨⟨⟨h1, h2⟩, h3⟩, h4⟩ := hstop
+      refine ⟨by simp [stops, h1], by simp [headIs, h2], by simp [headIs, h3], by simp [headIs, h4]⟩
+  obtain ⟨hs1, hbang, hdollar, hparen⟩ := hfacts
   have hg := refOK_inGrid r hr
-  have hcell := consumeRangeA1_cell 0 0 r rest hg hrest
   have htxt := printA1_cell 0 0 r hg
   obtain ⟨g1, g2, g3, g4⟩ := hg
   rw [htxt, hac, har] at hcell ⊢
@@ -866,12 +854,12 @@ theorem nextToken_ref_plain (cfg : LexCfg) (h : CfgOK cfg) (r : PRef) (rest : Li
     have hmem : x ∈ n := by rw [← heq, hx]; simp
     have := List.all_eq_true.mp hn x hmem
     simp [hxd] at this
-  have k2 := takeWhile_app _ _ rest hall hs1
-  have k3 := dropWhile_app _ _ rest hall hs1
+  have k2 := takeWhile_app _ _ X hall hs1
+  have k3 := dropWhile_app _ _ X hall hs1
   have hne := numToCol_ne_nil cn (by omega)
-  have hhead : ∃ c tl, numToCol cn ++ natToDec rn ++ rest = c :: tl ∧ isIdentStart cfg.cc c = true := by
+  have hhead : ∃ c tl, numToCol cn ++ natToDec rn ++ X = c :: tl ∧ isIdentStart cfg.cc c = true := by
     obtain ⟨c, tl, hctl⟩ := List.exists_cons_of_ne_nil hne
-    refine ⟨c, tl ++ natToDec rn ++ rest, by rw [hctl]; simp, ?_⟩
+    refine ⟨c, tl ++ natToDec rn ++ X, by rw [hctl]; simp, ?_⟩
     have := numToCol_all_upper cn
     rw [hctl] at this
     simp only [List.all_cons, Bool.and_eq_true] at this
@@ -881,7 +869,36 @@ theorem nextToken_ref_plain (cfg : LexCfg) (h : CfgOK cfg) (r : PRef) (rest : Li
   unfold identBranch
   simp only [k2, k3, hbang, hdollar, hup, hparen, h.a1,
     hnotbool cfg.trueName h.true_alpha.2, hnotbool cfg.falseName h.false_alpha.2, hpr, hcell]
-  simp [tokOfRange, ofRefTok, tokenOf_zero]
+  simp
+
+/-- what consume_range reads on `CELL ++ X`, whichever way next_token gets there -/
+theorem nextToken_cellStart (cfg : LexCfg) (h : CfgOK cfg) (sh : Option (List Char)) (r : PRef)
+    (X : List Char) (hsh : sheetOK sh = true) (hr : refOK r = true)
+    (hplain : (sh.isNone && !r.absCol && !r.absRow) = true → plainStop cfg X = true)
+    (rg : PRange) (rest' : List Char)
+    (hcell : consumeRangeA1 (printA1 [] 0 0 r false false ++ X) = some (rg, rest')) :
+    nextToken cfg (sheetPrefix cfg.cc sh ++ (printA1 [] 0 0 r false false ++ X))
+      = some (ofRefTok (tokOfRange sh rg, rest')) := by
+  have hcr : ∀ s, consumeRange cfg.cc true s (printA1 [] 0 0 r false false ++ X)
+      = (tokOfRange s rg, rest') := by
+    intro s; unfold consumeRange; simp [hcell]
+  by_cases hp : (sh.isNone && !r.absCol && !r.absRow) = true
+  · have hstop := hplain hp
+    simp only [Bool.and_eq_true, Option.isNone_iff_eq_none, Bool.not_eq_true'] at hp
+    obtain ⟨⟨hnone, hac⟩, har⟩ := hp
+    subst hnone
+    simp only [sheetPrefix, List.nil_append]
+    exact nextToken_ref_plain cfg h r X hr hac har hstop rg rest' hcell
+  · cases sh with
+    | some n =>
+      have hn : n ≠ [] := by intro e; subst e; simp [sheetOK] at hsh
+      simp only [sheetPrefix]
+      rw [nextToken_ref_sheet cfg h n hn, hcr]
+    | none =>
+      simp only [sheetPrefix, List.nil_append]
+      rw [nextToken_ref_local cfg h r X hr (by
+        simp only [Option.isNone_none, Bool.true_and] at hp
+        cases hac : r.absCol <;> cases har : r.absRow <;> simp_all), hcr]
 
 /-! ### every token class together -/
 
@@ -892,41 +909,50 @@ theorem nextToken_ref (cfg : LexCfg) (h : CfgOK cfg) (sh : Option (List Char)) (
   simp only [tokOK, Bool.and_eq_true] at hok
   obtain ⟨hsh, hr⟩ := hok
   simp only [renderTok, h.a1, if_true]
-  rw [printA1_pre _ 0 0 r (refOK_inGrid r hr)]
-  by_cases hplain : (sh.isNone && !r.absCol && !r.absRow) = true
-  · simp only [Bool.and_eq_true, Option.isNone_iff_eq_none, Bool.not_eq_true'] at hplain
-    obtain ⟨⟨hnone, hac⟩, har⟩ := hplain
-    subst hnone
-    simp only [sheetPrefix, List.nil_append]
-    apply nextToken_ref_plain cfg h r rest hr hac har
+  rw [printA1_pre _ 0 0 r (refOK_inGrid r hr), List.append_assoc]
+  have hrest : stops (fun c => isDigit c || c == ':') rest = true ∧
+      ((sh.isNone && !r.absCol && !r.absRow) = true → plainStop cfg rest = true) := by
+    cases rest with
+    | nil => exact ⟨rfl, fun _ => rfl⟩
+    | cons d t =>
+      have hb := follow_cons hf
+      by_cases hp : (sh.isNone && !r.absCol && !r.absRow) = true
+      · simp only [badNext, hp, if_true, Bool.or_eq_false_iff, decide_eq_false_iff_not] at hb
+        obtain ⟨⟨⟨⟨h1, h2⟩, h3⟩, h4⟩, h5⟩ := hb
+        have hdd : isDigit d = false := by
+          cases hx : isDigit d with
+          | false => rfl
+          | true => simp [isIdentChar, h.digit_alnum d hx] at h1
+        exact ⟨by simp [stops, hdd, h5], fun _ => by simp [plainStop, stops, h1, h2, h3, h4]⟩
+      · simp only [badNext, hp, Bool.false_eq_true, if_false, Bool.or_eq_false_iff,
+          decide_eq_false_iff_not] at hb
+        exact ⟨by simp [stops, hb.1, hb.2], fun hc => absurd hc hp⟩
+  have hcell := consumeRangeA1_cell 0 0 r rest (refOK_inGrid r hr) hrest.1
+  rw [nextToken_cellStart cfg h sh r rest hsh hr hrest.2 _ _ hcell]
+  simp [tokOfRange, ofRefTok, tokenOf_zero]
+
+/-- a range of two cells (neither whole rows nor whole columns), any sheet prefix, any `$` -/
+theorem nextToken_range (cfg : LexCfg) (h : CfgOK cfg) (sh : Option (List Char)) (l r : PRef)
+    (rest : List Char) (hok : tokOK cfg (.range sh l r) = true)
+    (hf : follow cfg (.range sh l r) rest = true) :
+    nextToken cfg (renderTok cfg (.range sh l r) ++ rest) = some (.range sh l r, rest) := by
+  simp only [tokOK, Bool.and_eq_true, Bool.not_eq_true'] at hok
+  obtain ⟨⟨⟨⟨hsh, hl⟩, hr⟩, hfr⟩, hfc⟩ := hok
+  simp only [renderTok, h.a1, if_true, printRangeA1, hfr, hfc]
+  rw [printA1_pre _ 0 0 l (refOK_inGrid l hl)]
+  simp only [List.append_assoc, List.cons_append]
+  have hrest : stops isDigit rest = true := by
     cases rest with
     | nil => rfl
     | cons d t =>
       have hb := follow_cons hf
-      simp only [badNext, Option.isNone_none, hac, har, Bool.not_false, Bool.and_self, if_true,
-        Bool.or_eq_false_iff, decide_eq_false_iff_not] at hb
-      obtain ⟨⟨⟨⟨h1, h2⟩, h3⟩, h4⟩, h5⟩ := hb
-      simp [plainStop, stops, h1, h2, h3, h4, h5]
-  · have hrest : stops (fun c => isDigit c || c == ':') rest = true := by
-      cases rest with
-      | nil => rfl
-      | cons d t =>
-        have hb := follow_cons hf
-        simp only [badNext, hplain, Bool.false_eq_true, if_false, Bool.or_eq_false_iff,
-          decide_eq_false_iff_not] at hb
-        simp [stops, hb.1, hb.2]
-    cases sh with
-    | some n =>
-      simp only [sheetPrefix, List.append_assoc]
-      have hn : n ≠ [] := by
-        intro e; subst e; simp [sheetOK] at hsh
-      have := nextToken_ref_sheet cfg h n hn r rest hr hrest
-      simpa [List.append_assoc] using this
-    | none =>
-      simp only [sheetPrefix, List.nil_append]
-      apply nextToken_ref_local cfg h r rest hr _ hrest
-      simp only [Option.isNone_none, Bool.true_and] at hplain
-      cases hac : r.absCol <;> cases har : r.absRow <;> simp_all
+      simp only [badNext] at hb
+      simp [stops, hb]
+  have hcell := consumeRangeA1_cells 0 0 l r rest (refOK_inGrid l hl) (refOK_inGrid r hr) hrest
+  have hX : plainStop cfg (':' :: (printA1 [] 0 0 r false false ++ rest)) = true := by
+    simp [plainStop, stops, isIdentChar, h.special_not_alnum ':' (by decide)]
+  rw [nextToken_cellStart cfg h sh l _ hsh hl (fun _ => hX) _ _ hcell]
+  simp [tokOfRange, ofRefTok, tokenOf_zero]
 
 /-- **one token**: `next_token` on the text of a well-formed token, followed by anything that does
     not start with a character that glues to it, returns that token and leaves what follows -/
@@ -973,7 +999,7 @@ theorem nextToken_renderTok (cfg : LexCfg) (h : CfgOK cfg) (t : CTok) (rest : Li
   | spill => exact nextToken_spill cfg h rest hf
   | backslash => exact nextToken_punct cfg h '\\' _ rest (by decide) (by decide)
   | ref sh r => exact nextToken_ref cfg h sh r rest hok hf
-  | range sh l r => simp [tokOK] at hok
+  | range sh l r => exact nextToken_range cfg h sh l r rest hok hf
   | sref a b c => simp [tokOK] at hok
 
 theorem nextToken_nil (cfg : LexCfg) : nextToken cfg [] = none := by
